@@ -311,10 +311,10 @@ void welch_case(const Json& c, Out& o, bool real) {
             ok = std::isfinite(q) && std::fabs(q - std::round(q)) < 1e-6 && std::fabs(q) <= 4.0 * g.nfft;
             if (ok) byf[size_t(i)] = R.p2[size_t(((long(std::llround(q)) % g.nfft) + g.nfft) % g.nfft)];
         }
-        if (ok) {
-            ld wl = 0;
-            for (int k = 0; k < m; ++k) wl = std::max(wl, std::fabs(ld(got.pxx[k]) - byf[size_t(k)]));
-            if (wl <= tol) { as_labelled = true; ref = byf; }
+        if (ok) {   // the order with the smaller deviation decides (a flat spectrum fits both)
+            ld wl = 0, wf = 0;
+            for (int k = 0; k < m; ++k) { wl = std::max(wl, std::fabs(ld(got.pxx[k]) - byf[size_t(k)])); wf = std::max(wf, std::fabs(ld(got.pxx[k]) - ref[size_t(k)])); }
+            if (wl <= tol && wl < wf) { as_labelled = true; ref = byf; }
         }
     }
     for (int k = 0; k < m; ++k) { ld e = std::fabs(ld(got.pxx[k]) - ref[size_t(k)]); if (e > worst) { worst = e; wk = k; } }
@@ -479,7 +479,7 @@ static void pk_check(const Json& c, Out& o) {
         for (int i = 0; i < m; ++i) {
             double d = got.f[i] * g.nfft - k0;
             d -= g.nfft * std::floor(d / g.nfft + 0.5);
-            if (std::fabs(d) < 1e-6 && std::fabs(ld(got.pxx[i]) / MS - 1) <= b0 + rnd) { idx = i; as_labelled = true; break; }
+            if (std::fabs(d) < 1e-6 && std::fabs(ld(got.pxx[i]) / MS - 1) <= b0 + rnd && std::fabs(ld(got.pxx[i]) / MS - 1) < std::fabs(ld(got.pxx[idx]) / MS - 1)) { idx = i; as_labelled = true; break; }
         }
     }
     const ld v0 = ld(got.pxx[idx]) / MS;
